@@ -1,20 +1,21 @@
 #!/usr/bin/env python3
-"""mkpatch.py <out.patch> (<file> <old> <new>)...  — make a patch against /repo HEAD by exact replacement (each old must occur once)."""
-import sys, subprocess
+"""mkpatch.py <out.patch> (<file> <old> <new>)...  — make a patch against /repo HEAD by exact replacement (each old must occur once).
+Works in a throw-away clone under /tmp; /repo itself is never touched."""
+import sys, subprocess, tempfile, shutil
 out = sys.argv[1]; args = sys.argv[2:]
 assert len(args) % 3 == 0
-subprocess.check_call(["git", "-C", "/repo", "diff", "--quiet"])
+tmp = tempfile.mkdtemp(prefix="mkpatch.")
 try:
+    subprocess.check_call(["git", "clone", "-q", "/repo", tmp + "/r"])
     for i in range(0, len(args), 3):
         f, old, new = args[i:i+3]
-        p = "/repo/" + f
+        p = tmp + "/r/" + f
         s = open(p).read()
         if s.count(old) != 1:
             sys.exit(f"{f}: pattern occurs {s.count(old)} times: {old[:60]!r}")
         open(p, "w").write(s.replace(old, new))
-    subprocess.check_call("cd /repo && gofmt -l . >/dev/null", shell=True)
-    d = subprocess.check_output(["git", "-C", "/repo", "diff"]).decode()
+    d = subprocess.check_output(["git", "-C", tmp + "/r", "diff"]).decode()
     open(out, "w").write(d)
 finally:
-    subprocess.check_call(["git", "-C", "/repo", "checkout", "--", "."])
+    shutil.rmtree(tmp)
 print("wrote", out, len(d.splitlines()), "lines")
